@@ -434,12 +434,23 @@ func Run(j *job.Job, s *job.Sink) {
 							continue
 						}
 						v := fmt.Sprintf("w%d%d", i, j)
+						if dk == "replace" && r.Intn(3) == 0 {
+							v = "" // replacing the units by the empty string empties them
+						}
 						switch {
 						case dk == "add" && cur.units == "", dk == "replace" && cur.units != "":
 							fmt.Fprintf(devText, " units %q;", v)
 							cur.units, cur.unitsSeen = v, v
 						}
 					case "type":
+						if cur.kind != "leaf" && cur.kind != "leaf-list" && dk != "delete" && r.Intn(6) == 0 {
+							// a type for a node that is neither leaf nor leaf-list cannot be applied
+							fmt.Fprintf(devText, " type uint8;")
+							if wantErr == "" {
+								wantErr = "type-non-leaf"
+							}
+							continue
+						}
 						if (cur.kind != "leaf" && cur.kind != "leaf-list") || dk != "replace" {
 							continue
 						}
